@@ -633,3 +633,43 @@ Print Assumptions C01_history_without_migrates_is_a_special_case.
 Print Assumptions C01_oe_migrate_changes_nothing.
 Print Assumptions C01_oe_history_with_migrates.
 Print Assumptions C01_oe_every_reachable_state_with_migrates.
+
+(* ---- Part 3, continued: migrations and governance.  The minter's `migrate` (accepted or
+   refused, by anyone, from any stored cw2 info) and a sudo UpdateParams on the factory leave
+   the supply invariant alone; it therefore holds after every history interleaving entry
+   points, migrations and governance (`hstep`, `sxrun`). ---- *)
+From Coq Require Import String.
+From LP Require Import TokenMergeMigrate TokenMergeMigrateProofs.
+
+Theorem C01_tm_migrate_preserves : forall n is_admin stored s,
+  InvT n s -> InvT n (after_migrate is_admin stored (fst s), snd s).
+Proof. exact migrate_inv_tm. Qed.
+
+Theorem C01_tm_migrate_changes_nothing : forall is_admin stored st, after_migrate is_admin stored st = st.
+Proof. exact after_migrate_same. Qed.
+
+Theorem C01_tm_governance_preserves : forall n mx ap sf s,
+  InvT n s -> InvT n (tm_sudo_params mx ap sf (fst s), snd s).
+Proof. exact sudo_inv_tm. Qed.
+
+Theorem C01_tm_every_reachable_state_with_migrations : forall n minter (h : list hstep) s,
+  InvT n s -> InvT n (sxrun minter h s).
+Proof. exact sxrun_inv_tm. Qed.
+
+Example C01_tm_ex_history_with_migrations :
+  let h := [HOp 2000 (OReceive 21 11 None 101 3);
+            HMigrate true ("crates.io:sg-minter"%string, "0.0.1"%string);
+            HOp 2002 (TokenMerge.OMintFor 5 2 12 []);
+            HSudo (Some 1) (Some 7) None;
+            HMigrate false ("crates.io:sg-minter"%string, "0.0.1"%string);
+            HOp 2004 (TokenMerge.OBurnRemaining 5 []);
+            HMigrate true ("crates.io:sg-minter"%string, "99.0.0"%string);
+            HOp 2005 (TokenMerge.OMintTo 5 12 [mkCoin 0 7] 1)] in
+  let s := sxrun 7 h (tm_ex_s0, sghost0) in
+  (tm_mintable (fst s), tm_avail (fst s), sg_minted (snd s), sg_burned (snd s)) = (0, [], [2; 3], 1).
+Proof. vm_compute. reflexivity. Qed.
+
+Print Assumptions C01_tm_migrate_preserves.
+Print Assumptions C01_tm_migrate_changes_nothing.
+Print Assumptions C01_tm_governance_preserves.
+Print Assumptions C01_tm_every_reachable_state_with_migrations.
